@@ -77,71 +77,15 @@ def d9_1(ctx):
     ctx.check(c == bytes([sp["data_segment"]["ansi_extended_symbol"]]), "pycomm3.const:EXTENDED_SYMBOL", ctx.model.module("pycomm3.const").symbols["EXTENDED_SYMBOL"].node, "EXTENDED_SYMBOL = 91", f"EXTENDED_SYMBOL is {c!r}")
 
 
-@rule(P, "D9.2", "T-INTERVAL", floor=4)
+@rule(P, "D9.2", "T-WITNESS", floor=4)
 def d9_2(ctx):
-    """LogicalSegment value->width dispatch: `value <= 2^(8w)-1 -> w-byte encoder`, ascending, larger values raise DataError."""
-    ls = _seg(ctx, "LogicalSegment")
-    fn = ls.methods["_encode"]
-    chain = None
-    for n in walk(fn):
-        if isinstance(n, ast.If) and isinstance(n.test, ast.Call) and call_name(n.test) == "isinstance" and atom_name(n.test.args[1]) == "int":
-            chain = n.body[0] if n.body and isinstance(n.body[0], ast.If) else None
-            valname = atom_name(n.test.args[0])
-    if chain is None:
-        ctx.violation(ckey(ls.key + "._encode", "dispatch"), fn, "no `isinstance(value, int)` dispatch over value ranges found")
-        return
-    branches = []
-    node = chain
-    final = None
-    while isinstance(node, ast.If):
-        c = cmp_norm(node.test, lambda e: ctx.folder.eval(e, ls.module) if not isinstance(e, ast.Name) else None)
-        thr = None
-        if c and c[0] == "<=0" and c[1].terms == {valname: 1}:
-            thr = -c[1].const
-        enc = None
-        for s in node.body:
-            if isinstance(s, ast.Assign) and isinstance(s.value, ast.Call) and isinstance(s.value.func, ast.Attribute) and s.value.func.attr == "encode":
-                t = ctx.folder.eval(s.value.func.value, ls.module)
-                if isinstance(t, ClassRef):
-                    enc = (t.ci.name, ctx.folder.class_attr(t.ci, "size"), ctx.folder.class_attr(t.ci, "_format"), atom_name(s.value.args[0]))
-        branches.append((node, thr, enc))
-        if len(node.orelse) == 1 and isinstance(node.orelse[0], ast.If):
-            node = node.orelse[0]
-        else:
-            final = node.orelse
-            node = None
-    prev = -1
-    for nd, thr, enc in branches:
-        key = ckey(ls.key + "._encode", f"dispatch<= {thr}")
-        if thr is None or enc is None:
-            ctx.violation(key, nd, f"branch `{src(nd.test)}` is not of the form value <= K -> T.encode(value)")
-            continue
-        name, size, fmt, arg = enc
-        good = isinstance(size, int) and thr == (1 << (8 * size)) - 1 and thr > prev and arg == valname and isinstance(fmt, str) and fmt[-1] in "BHIQ"
-        ctx.check(good, key, nd, f"value <= {thr:#x} -> {name} ({size} byte)", f"values up to {thr:#x} are encoded with {name} ({size} byte(s), format {fmt!r}): the largest value of the branch does not fit / thresholds not ascending", threshold=thr, encoder=name)
-        prev = thr
-    raises = [s for s in (final or []) if isinstance(s, ast.Raise)]
-    ctx.check(bool(raises) and all(call_name(r.exc) == "DataError" for r in raises if isinstance(r.exc, ast.Call)), ckey(ls.key + "._encode", "dispatch-else"), fn, "larger values raise DataError", "values above the 32-bit range are not rejected with DataError")
-    # format chosen by the encoded width; segment byte = type | logical type | format
-    fmt_ok = any(isinstance(n, ast.Assign) and isinstance(n.value, ast.Call) and attr_path(n.value.func) == "cls.logical_format.get" and n.value.args and src(n.value.args[0]).replace(" ", "") == f"len({valname})" for n in walk(fn))
-    byte_ok = False
-    for n in walk(fn):
-        if isinstance(n, ast.Call) and call_name(n) == "bytes" and n.args and isinstance(n.args[0], ast.List) and len(n.args[0].elts) == 1:
-            e = n.args[0].elts[0]
-            parts = set()
+    """LogicalSegment value -> width: values up to 0xFF take one byte, up to 0xFFFF two, up to 0xFFFF_FFFF four, larger ones are
+    refused; the format bits name the width chosen.  Decided by folding `_encode` on the boundary values of each width in the
+    padded and packed forms (D9.11).  An earlier form located the comparison ladder inside `_encode` and alarmed when it was
+    moved into a helper."""
+    from .driver import _segment_rule
 
-            def collect(x):
-                if isinstance(x, ast.BinOp) and isinstance(x.op, ast.BitOr):
-                    collect(x.left)
-                    collect(x.right)
-                else:
-                    parts.add(atom_name(x))
-
-            collect(e)
-            byte_ok = "cls.segment_type" in parts and len(parts) == 3
-    ctx.check(fmt_ok and byte_ok, ckey(ls.key + "._encode", "segment-byte"), fn, "segment byte = segment_type | logical type | format(len(value))", "the logical segment byte is not composed of type, logical type and the format of the encoded width")
-    none_checks = [n for n in walk(fn) if isinstance(n, ast.If) and isinstance(n.test, ast.Compare) and isinstance(n.test.ops[0], ast.Is) and any(isinstance(s, ast.Raise) for s in n.body)]
-    ctx.check(len(none_checks) >= 2, ckey(ls.key + "._encode", "unknown-kinds"), fn, "unknown logical type / unsupported width raise DataError", "unknown logical type or unsupported value width is no longer rejected")
+    _segment_rule(ctx)
 
 
 @rule(P, "D9.3", "T-PARITY", floor=5)
@@ -199,20 +143,12 @@ def d9_3(ctx):
                 rets = [r for r in walk(fn) if isinstance(r, ast.Return)]
                 good = len(rets) == 1 and atom_name(rets[0].value) == atom_name(n.body[0].target)
     ctx.check(good, ckey(ps.key + "._encode", "pad"), fn, "port segment padded with 00 to an even total", "port segment is not padded to an even total length")
-    # EPATH.encode prefix
-    ep = ctx.model.cls(f"{DT}:EPATH")
-    fn = ep.methods["encode"]
-    lay = flatten(Layouter(ctx, ep.module, ep, fn).function(fn) or [])
-    good, facts = False, {"layout": show(lay)}
-    if len(lay) == 1 and lay[0][0] == "alt" and lay[0][1] == "length":
-        a = lay[0][2]
-        b = lay[0][3]
-        good = len(a) == 3 and a[0][0] == "lenof" and a[0][1] == "USINT" and a[0][4] == "words" and a[1] == ("pad", "pad_length", b"\x00") and a[2][0] == "each" and b == [a[2]] and a[0][3] == "path"
-    ctx.check(good, ckey(ep.key + ".encode", "prefix"), fn, "USINT(len(path)//2) [+ 00 when pad_length] + segments", "padded EPATH prefix is not `USINT word count (+ reserved 00) + path`", **facts)
-    pe = ctx.model.cls(f"{DT}:PADDED_EPATH")
-    ctx.check(ctx.folder.class_attr(pe, "padded") is True, ckey(pe.key, "padded"), pe.node, "PADDED_EPATH encodes segments in padded form", "PADDED_EPATH.padded is not True")
-    seg_call = any(isinstance(c, ast.Call) and attr_path(c.func) == "segment.encode" and any(k.arg == "padded" and attr_path(k.value) == "cls.padded" for k in c.keywords) for c in walk(fn))
-    ctx.check(seg_call, ckey(ep.key + ".encode", "padded-flag"), fn, "segments are encoded with padded=cls.padded", "EPATH.encode does not pass padded=cls.padded to the segments")
+    # EPATH.encode: word-count prefix (+ reserved byte), segment order and the padded / packed flag handed to every segment are
+    # decided by folding `encode` on witness segment lists for PADDED_EPATH and PACKED_EPATH (D9.11); an earlier form read the
+    # layout of the `b"".join(generator)` expression and alarmed when the parts were collected by a loop
+    from .driver import _segment_rule
+
+    _segment_rule(ctx)
 
 
 @rule(P, "D9.4", "T-SPEC", floor=12)
@@ -312,22 +248,15 @@ def d9_5(ctx):
     ctx.check(good, ckey(rp, "order"), f, "class, instance, optional attribute; padded EPATH with word count", "request_path is not [class, instance, (attribute)] encoded with a word-count prefix")
 
 
-@rule(P, "D9.6", "T-LAYOUT", floor=3)
+@rule(P, "D9.6", "T-WITNESS", floor=3)
 def d9_6(ctx):
-    """Port segment: port byte (extended-link bit iff link longer than one byte), optional length byte, link bytes."""
-    ps = _seg(ctx, "PortSegment")
-    fn = ps.methods["_encode"]
-    lay = strip_guards(Layouter(ctx, ps.module, ps, fn).function(fn) or [])
-    good, facts = False, {"layout": show(lay)}
-    if len(lay) >= 4:
-        good = lay[0][0] == "enc" and lay[0][1] == "USINT" and lay[1][0] == "alt" and "len(link)>1" in lay[1][1] and len(lay[1][2]) == 1 and lay[1][2][0][0] == "lenof" and lay[1][2][0][1] == "USINT" and lay[1][2][0][3] == "link" and lay[1][3] == [] and lay[-1][0] == "pad"
-    ctx.check(good, ckey(ps.key + "._encode", "layout"), fn, "USINT(port) | USINT(len(link)) iff len(link) > 1 | link | pad", f"port segment layout deviates: {show(lay)}", **facts)
-    ext = [n for n in walk(fn) if isinstance(n, ast.If) and src(n.test).replace(" ", "") == "len(link)>1"]
-    good = len(ext) == 1 and any(isinstance(s, ast.AugAssign) and isinstance(s.op, ast.BitOr) and atom_name(s.target) == "port" and attr_path(s.value) == "cls.extended_link" for s in ext[0].body)
-    ctx.check(good, ckey(ps.key + "._encode", "extended-bit"), fn, "extended-link bit set exactly when the link length byte is present", "the extended link bit is not set under the same condition that emits the link length byte")
-    nums = [c for c in walk(fn) if isinstance(c, ast.Call) and attr_path(c.func) == "USINT.encode" and c.args and ("link_address" in src(c.args[0]))]
-    ip = any(isinstance(c, ast.Call) and (call_name(c) or "").endswith("ip_address") for c in walk(fn))
-    ctx.check(len(nums) == 2 and ip, ckey(ps.key + "._encode", "link-validation"), fn, "numeric links go through USINT (0..255); dotted links are validated by ipaddress", "link addresses are no longer range-checked (USINT) / validated (ipaddress)")
+    """Port segment: port byte with the extended-link bit iff the link is longer than one byte, then the optional length byte and
+    the link bytes, padded to even length; numeric links are one range-checked byte, text links are validated IP addresses, port
+    numbers outside 1..14 and unknown port names are refused.  Decided by folding `_encode` on witness (port, link) pairs against
+    the bytes of CIP Vol.1 C-1.4.1 (D9.11)."""
+    from .driver import _segment_rule
+
+    _segment_rule(ctx)
 
 
 @rule(P, "D9.7", "T-BITS", floor=1)
